@@ -561,6 +561,12 @@ class Extractor:
                     if not mm:
                         continue
                     x_, a_, b_ = mm.group(1), mm.group(2).strip(), mm.group(3).strip()
+                    # the header is replaced as a whole: repeat the Deref insertion for listed buffers inside it
+                    for d_ in directives:
+                        if d_['d'].startswith('rw deref_buffer '):
+                            for nm in [x.strip() for x in d_['d'][len('rw deref_buffer '):].split(',') if x.strip()]:
+                                a_ = re.sub(r'(?<![\w])(?<![^.]\.)' + re.escape(nm) + r'(?=\[|\.len\(\))', nm + '.buffer', a_)
+                                b_ = re.sub(r'(?<![\w])(?<![^.]\.)' + re.escape(nm) + r'(?=\[|\.len\(\))', nm + '.buffer', b_)
                     edits.append(Edit(lo_, ob_, 'let mut %s_next = %s; while %s_next > %s ' % (x_, b_, x_, a_), 'R7'))
                     e2 = Edit(ob_ + 1, ob_ + 1, [(' %s_next -= 1; let %s = %s_next;' % (x_, x_, x_), '<R7>', 0)], 'splice')
                     e2.prio = -1
